@@ -27,8 +27,8 @@ def plan(tier, work, v):
     q = tier == "quick"
     ops1, r1 = rc.enumerate_ops(work, 1, "AllRoots", True, coverage=q)
     v.add_tlc(r1, "ResultModel ideal image, MaxAtoms=1, all roots")
-    ops2, r2 = rc.enumerate_ops(work, 2, "QuickRoots" if q else "AllRoots", True)
-    v.add_tlc(r2, f"ResultModel ideal image, MaxAtoms=2, {'QuickRoots' if q else 'AllRoots'}")
+    ops2, r2 = rc.enumerate_ops(work, 2, "AllRoots", True)
+    v.add_tlc(r2, "ResultModel ideal image, MaxAtoms=2, AllRoots")
     if q:
         for act in ("Generate", "Respond", "DoValidate"):
             if r1.coverage.get(f"ResultModel!{act}", (0, 0))[1] == 0:
@@ -40,9 +40,11 @@ def plan(tier, work, v):
             seen.add(k)
             ops.append(op)
     if q:
-        # quick: all 1-atom operations + a seeded third of the 2-atom ones
+        # quick: all 1-atom operations + a seeded third of the 2-atom ones at the roots j, u, a, d, a sixth at root i
+        # (interface implementing an interface: finding F26 needed two atoms there) and a twelfth at the list / nested roots
         s = seed()
-        ops = [op for i, op in enumerate(ops) if len(op["sels"]) == 1 or (i + s) % 3 == 0]
+        every = {"j": 3, "u": 3, "a": 3, "d": 3, "i": 6}
+        ops = [op for i, op in enumerate(ops) if len(op["sels"]) == 1 or (i + s) % every.get(op["root"], 12) == 0]
     return ops
 
 
